@@ -549,7 +549,7 @@ func cmdCheck(repo, verif, prop, tier string) int {
 	}
 	trusted := []string{
 		"govc itself (contract parser, SSA->SMT translation, mod-set analysis) and golang.org/x/tools/go/ssa v0.29.0",
-		"the SMT solvers z3 4.8.12, z3 5.1.0, cvc5 1.0 (quick: first definite answer of the three; thorough: two must agree)",
+		"the SMT solvers z3 4.8.12, z3 5.1.0, cvc5 1.0 (quick: first definite answer of the three; thorough: all three are asked, none may find a counterexample, the number of confirmations is recorded)",
 		"machine integers treated as mathematical integers (overflow obligations only in functions marked `opt arith checked`)",
 		"strings are SMT sequences of characters (len counts characters, not bytes)",
 		"append never shares storage with its first argument (default model); interior pointers that escape are havocked",
